@@ -128,3 +128,43 @@ def _balanced(t):
         if d < 0:
             return False
     return d == 0
+
+
+_NEG = {"<": ">=", "<=": ">", ">": "<=", ">=": "<", "==": "!=", "!=": "=="}
+_SWAP = {"<": ">", "<=": ">=", ">": "<", ">=": "<=", "==": "==", "!=": "!="}
+
+
+def _top_cmp(t):
+    """('A', op, 'B') for a canonical comparison string '(A op B)' (split at the top-level operator), else None"""
+    if not (t.startswith("(") and t.endswith(")")):
+        return None
+    inner, depth = t[1:-1], 0
+    for i, ch_ in enumerate(inner):
+        depth += ch_ == "("
+        depth -= ch_ == ")"
+        if depth == 0 and ch_ == " ":
+            for op in ("<=", ">=", "==", "!=", "<", ">"):
+                if inner.startswith(" " + op + " ", i):
+                    return inner[:i], op, inner[i + len(op) + 2:]
+    return None
+
+
+def rel_assumed(trace, a, op, b, upto=None):
+    """Some assumption on the path (before index `upto`) states exactly `a op b`, in any equivalent spelling:
+    negated with the complementary operator, operands swapped, or wrapped in '!'."""
+    t = trace if upto is None else trace[:upto]
+    for e in t:
+        if e[0] != "assume":
+            continue
+        txt, truth = e[1], e[2]
+        while txt.startswith("!"):
+            txt, truth = txt[1:], not truth
+        c = _top_cmp(txt)
+        if c is None:
+            continue
+        x, o, y = c
+        if not truth:
+            o = _NEG[o]
+        if (x, o, y) == (a, op, b) or (y, _SWAP[o], x) == (a, op, b):
+            return True
+    return False
